@@ -118,6 +118,7 @@ def hostFnOf (s : Sexp) : VM.HostFn :=
   | "arg", [i] => .arg i.nat
   | "sum", _ => .sumInts
   | "void", _ => .void
+  | "list", _ => .listArgs
   | "nil", _ => .nilRet
   | "panic", _ => .panic
   | _, _ => .void
